@@ -408,8 +408,10 @@ def run_parent(args):
         if getattr(mod, "EXHAUSTIVE", None):
             ev["coverage"]["exhaustive_scope"] = mod.EXHAUSTIVE
         check_evidence(ev)
-        os.makedirs(os.path.join(ROOT, "evidence"), exist_ok=True)
-        with open(os.path.join(ROOT, "evidence", "%s.json" % prop), "w") as fh:
+        # audits against scratch/mutated trees must not overwrite the evidence of /repo itself
+        evdir = os.environ.get("VERIF_EVIDENCE_DIR") or os.path.join(ROOT, "evidence")
+        os.makedirs(evdir, exist_ok=True)
+        with open(os.path.join(evdir, "%s.json" % prop), "w") as fh:
             json.dump(ev, fh, indent=1, sort_keys=True)
             fh.write("\n")
     print("%s tier=%s seed=%d shards=%d evaluations=%d distinct_nontrivial=%d wall=%.1fs verdict=%s" % (
